@@ -104,6 +104,8 @@ def gen_scenario(r, max_cells, entry=None):
     # a nested `with other:` block entered and left between installing the target as default and the call: the default
     # in force afterwards must again be the target (also when the target has no recorded spend yet, i.e. is "falsy")
     sc["nested_with"] = sc["mode"] != "explicit" and r.chance(0.4)
+    # the nested block is left by an exception (caught outside it) in half of the cases: __exit__ must still restore the default
+    sc["nested_raises"] = bool(sc["nested_with"] and r.chance(0.5))
     # the accountant in force may be an instance of a user SUBCLASS of BudgetAccountant (own constructor / attributes,
     # or an auditing spend() override); so may the previous default
     # undefined / non-finite data: a NaN or an infinity anywhere, NaN in one entry of one output cell's slice, an
@@ -441,6 +443,23 @@ def tool_call(sc, acc_kw):
 
 # ----------------------------------------------------------------------------------------------- run + verdict
 
+class _Boom(Exception):
+    pass
+
+
+def _nested_block(sc, decoy2):
+    """a complete `with decoy2:` block before the call — left normally, or by an exception that is caught outside it"""
+    if sc.get("nested_raises"):
+        try:
+            with decoy2:
+                raise _Boom()
+        except _Boom:
+            pass
+    else:
+        with decoy2:
+            pass
+
+
 def run_scenario(sc):
     """returns dict(result kind, mech calls, snapshots, verdict)"""
     old_default = BA._default
@@ -484,15 +503,13 @@ def run_scenario(sc):
                     elif mode == "with":
                         with target:
                             if sc.get("nested_with"):
-                                with decoy2:
-                                    pass
+                                _nested_block(sc, decoy2)
                             model = mk({})
                         dflt_construct = 0
                     else:
                         target.set_default()
                         if sc.get("nested_with"):
-                            with decoy2:
-                                pass
+                            _nested_block(sc, decoy2)
                         model = mk({})
                         dflt_construct = 0
                         dflt_fit = 0
@@ -515,15 +532,13 @@ def run_scenario(sc):
                                 dflt_construct = dflt_fit = 0
                                 with target:
                                     if sc.get("nested_with"):
-                                        with decoy2:
-                                            pass
+                                        _nested_block(sc, decoy2)
                                     tool_call(sc, {})()
                             else:
                                 dflt_construct = dflt_fit = 0
                                 target.set_default()
                                 if sc.get("nested_with"):
-                                    with decoy2:
-                                        pass
+                                    _nested_block(sc, decoy2)
                                 tool_call(sc, {})()
                         except Exception as e:  # noqa
                             exc = e
@@ -570,7 +585,7 @@ def verdict(sc, res):
     tb, ta = before[0][0], after[0][0]
     appended = ta[len(tb):] if ta[:len(tb)] == tb else None
     desc = f"{entry} ({sc['kind']}, {sc.get('layout', '')} cells={sc.get('cells', 1)} quants={sc.get('quants', 1)}) eps={eps!r} " \
-           f"state={sc['state']} mode={sc['mode']}{'+nested-with-block' if sc.get('nested_with') else ''} " \
+           f"state={sc['state']} mode={sc['mode']}{'+nested-with-block' if sc.get('nested_with') else ''}{'-left-by-exception' if sc.get('nested_raises') else ''} " \
            f"decoy-default={sc['decoy']} prior={sc['prior']} accountant={sc.get('acc_kind', 'plain')}" \
            f"{' data=' + sc['bad_data'] if sc.get('bad_data') else ''}" \
            f"{' quantile-list=' + str(quantile_list(sc)) if sc.get('quants', 1) > 1 else ''}" \
